@@ -99,8 +99,8 @@ Print Assumptions C07_realtime_cache_transparent.
    (instance: K = sqlt * nat, hash = pair - injective by construction) *)
 Definition s0 (fx : fixes) : state KI :=
   init_state KI [LPlain "inp"] 0 ["first_name"; "surname"] 0 5 6 fx.
-Definition unfixed : fixes := {| fx77 := false; fx716 := false |}.
-Definition repaired : fixes := {| fx77 := true; fx716 := true |}.
+Definition unfixed : fixes := {| fx77 := false; fx716 := false; fx715 := false |}.
+Definition repaired : fixes := {| fx77 := true; fx716 := true; fx715 := true |}.
 Definition predict_prov (s : state KI) : prov := result_prov KI keqbI hashI s Predict.
 
 (* (a) DESIGN 7.7: predict; register_term_frequency_lookup; predict - on the unrepaired tree the named
